@@ -200,6 +200,33 @@ def fixed_vertices(seed, n):
         if mode == 'isolated_fixed':
             if any(not np.all(np.isfinite(np.array(v.pose))) for v in vs):
                 fails.append({'law': 'a fixed vertex with no incident edge made the problem unsolvable (non-finite poses)', 'seed': seed, 'case': i, 'edge': 'graph'})
+    # a vertex fixed in one call and released before the next must move again (no stale fixed set)
+    for i in range(max(2, n // 5)):
+        g, kind, ffp = mixed_graph(rng, with_custom=False, fixed_mode='some')
+        vs = g._vertices
+        fixed_now = [k for k, v in enumerate(vs) if v.fixed]
+        if len(fixed_now) < 2:
+            continue
+        g.optimize(tol=0.0, max_iter=1, fix_first_pose=False, verbose=False)
+        rel = fixed_now[-1]
+        vs[rel].fixed = False
+        for v in vs:       # perturb, so that the released vertex has something to do
+            if not v.fixed:
+                d = np.array([rng.gauss(0, .05) for _ in range(v.pose.COMPACT_DIMENSIONALITY)])
+                v.pose = v.pose + d
+        H, b, off = dense_system(g)
+        if np.linalg.cond(H) > 1e10:
+            continue
+        dx = np.linalg.solve(H, -b)
+        expected = [np.array(v.pose) if v.fixed else np.array(v.pose + dx[off[k]:off[k + 1]]) for k, v in enumerate(vs)]
+        g.optimize(tol=0.0, max_iter=1, fix_first_pose=False, verbose=False)
+        evals += 1
+        sc = 1.0 + max(float(np.abs(e).max()) for e in expected)
+        for k, v in enumerate(vs):
+            if not poses_close(expected[k], v.pose, 1e-7 * sc):
+                fails.append({'law': 'after releasing a previously fixed vertex and calling optimize() again the step is not the Gauss-Newton step of the CURRENT fixed set '
+                                     '(hidden state across calls)', 'seed': seed, 'case': i, 'vertex_position': k, 'released': rel, 'edge': 'graph'})
+                break
     # reduced problem: dx on the free vertices = solution of the reduced dense system
     for i in range(max(2, n // 4)):
         g, kind, ffp = mixed_graph(rng, fixed_mode='some')
@@ -334,6 +361,37 @@ def representation_independence(seed, n):
                     e.offset = PoseSE3(e.offset[:3], -np.asarray(e.offset[3:]))
             # information was generated block-diagonal here (info_cross=False -> identity)
             check('negating unit quaternions (block-diagonal information)', Graph(g2._edges, g2._vertices))
+    # negated measurement quaternions written to a .g2o file (block-diagonal information): the loaded graph must optimise to the same result
+    import tempfile
+    import os
+    for i in range(max(2, n // 3)):
+        g0, _ = oe.build_graph(rng, 'SE3', nv=rng.randint(3, 5), landmarks=False, noise=0.02, pert=0.03, info_cross=False)
+        p1 = os.path.join(tempfile.gettempdir(), 'verif_c08_%d_a.g2o' % os.getpid())
+        p2 = os.path.join(tempfile.gettempdir(), 'verif_c08_%d_b.g2o' % os.getpid())
+        try:
+            g0.to_g2o(p1)
+            gneg = copy.deepcopy(g0)
+            for e in gneg._edges:
+                if isinstance(e.estimate, PoseSE3) and rng.random() < 0.7:
+                    e.estimate = PoseSE3(e.estimate[:3], -np.asarray(e.estimate[3:]))
+            gneg.to_g2o(p2)
+            ga, gb = Graph.from_g2o(p1), Graph.from_g2o(p2)
+            evals += 1
+            ca, cb = ga.calc_chi2(), gb.calc_chi2()
+            if not abs(ca - cb) <= 1e-8 * (1 + abs(ca)):
+                fails.append({'law': 'a .g2o file with negated measurement quaternions loads to a graph with a different chi2 (%r vs %r), block-diagonal information' % (ca, cb),
+                              'seed': seed, 'case': i, 'edge': 'graph'})
+                continue
+            ga.optimize(tol=0.0, max_iter=2, verbose=False)
+            gb.optimize(tol=0.0, max_iter=2, verbose=False)
+            for va, vb in zip(ga._vertices, gb._vertices):
+                if not poses_close(np.array(va.pose), np.array(vb.pose), 1e-6 * (1 + float(np.abs(np.array(va.pose)).max()))):
+                    fails.append({'law': 'negated measurement quaternions in a .g2o file change the optimization result', 'seed': seed, 'case': i, 'edge': 'graph'})
+                    break
+        finally:
+            for p in (p1, p2):
+                if os.path.exists(p):
+                    os.remove(p)
     # the known finding, deterministic
     c1, c2 = sign_finding_example()
     evals += 1
@@ -634,4 +692,39 @@ def local_convergence(seed, n, scale=1.0):
                     fails.append({'law': 'noise-free problem: optimized relative pose differs from the ground truth', 'seed': seed, 'case': i, 'kind': kind,
                                   'pair': a, 'expected': np.asarray(ref).tolist(), 'got': np.asarray(rel).tolist(), 'edge': 'graph'})
                     break
+    return evals, fails
+
+
+# ------------------------------------------------------------------------------------------------
+# C12 (extra oracle): the report after sequences that leave private caches of the Graph stale
+def stale_cache_sequences(seed, n):
+    rng = random.Random(seed)
+    fails, evals = [], 0
+    for i in range(n):
+        kind = rng.choice(['SE2', 'SE3', 'R2', 'R3'])
+        g, _ = oe.build_graph(rng, kind, nv=rng.randint(3, 5), landmarks=True, noise=0.05, pert=0.05)
+        seq = rng.choice(['chi2_then_edit', 'optimize_then_edit', 'two_graphs'])
+        try:
+            if seq == 'chi2_then_edit':
+                g.calc_chi2()
+            elif seq == 'optimize_then_edit':
+                g.optimize(tol=0.0, max_iter=1, verbose=False)
+            else:
+                g2 = Graph(list(g._edges), list(g._vertices))
+                g2.calc_chi2()
+            for v in g._vertices[1:]:
+                d = np.array([rng.gauss(0, .2) for _ in range(v.pose.COMPACT_DIMENSIONALITY)])
+                v.pose = v.pose + d
+            ref = copy.deepcopy(g)
+            c_now = ref.calc_chi2()
+            res = g.optimize(tol=0.0, max_iter=rng.randint(1, 3), verbose=False)
+            evals += 1
+            if res.initial_chi2 != c_now:
+                fails.append({'law': 'initial_chi2 %r is not the chi2 %r of the state optimize() started from (sequence %s)' % (res.initial_chi2, c_now, seq),
+                              'seed': seed, 'case': i, 'kind': kind, 'edge': 'graph'})
+                continue
+            if res.final_chi2 != copy.deepcopy(g).calc_chi2():
+                fails.append({'law': 'final_chi2 differs from calc_chi2() of the returned graph (sequence %s)' % seq, 'seed': seed, 'case': i, 'edge': 'graph'})
+        except Exception as ex:  # noqa
+            fails.append({'law': 'sequence %s raised %r' % (seq, ex), 'seed': seed, 'case': i, 'edge': 'graph'})
     return evals, fails
